@@ -163,6 +163,28 @@ def oracle_c03(rec, problems):
     return jobs
 
 
+def oracle_c02(rec, problems, tol=Fraction(1, 10**10)):
+    """The probability matrix every pick uses equals the exact permanent ratios of the current state."""
+    for idx, op in enumerate(rec.ops):
+        if op["kind"] != "prep" or not any(x[0] == "pick" for x in op["low"]):
+            continue
+        P = op.get("P_used")
+        if isinstance(P, str):
+            problems.append(f"op {idx}: computing the probability matrix failed: {P}")
+            continue
+        b = op["before"]
+        Pex = T.exact_P(b["W"], b["locks"])
+        if Pex is None:
+            problems.append(f"op {idx}: the idle block has zero permanent when a job is drawn")
+            continue
+        for r, (re, ri) in enumerate(zip(Pex, P)):
+            for c, (a, x) in enumerate(zip(re, ri)):
+                if abs(a - x) > tol:
+                    problems.append(f"op {idx}: pick uses P[{r}][{c}] = {float(x)} but the permanent ratio of the current state is {float(a)} "
+                                    f"(W={b['W']}, busy={b['locks']})")
+                    return
+
+
 def fsum(rows, n):
     tot = [Fraction(0)] * n
     for r in rows:
@@ -326,7 +348,7 @@ def run_case(case):
     except Exception:  # noqa: BLE001  (C02's model not built: fall back to the Python exact permanents)
         T.PERM_RUNNER = None
     wd = H.scratch("infv_rx_")
-    out = {"model": [], "C03": [], "C04": [], "C05": [], "stats": {"ops": 0, "treats": 0, "zero_swaps": 0, "segments": 0,
+    out = {"model": [], "C02": [], "C03": [], "C04": [], "C05": [], "stats": {"ops": 0, "treats": 0, "zero_swaps": 0, "segments": 0,
                                                                      "acc": 0, "rej": 0, "max_inflight": 0, "sort_swaps": 0,
                                                                      "relocks": 0, "data_rows": 0, "P_from_coq_model": 0}}
     try:
@@ -360,7 +382,9 @@ def run_case(case):
             probs, stats = T.validate(runner, rec)
             out["model"] += [f"segment {seg}: {p}" for p in probs]
             out["stats"]["ops"] += len(rec.ops)
-            p3, p4, p5 = [], [], []
+            p2, p3, p4, p5 = [], [], [], []
+            oracle_c02(rec, p2)
+            out["C02"] += [f"segment {seg}: {p}" for p in p2]
             oracle_c03(rec, p3)
             ic = oracle_c04(rec, p4)
             oracle_c05(rec, p5)
